@@ -260,4 +260,20 @@ var props = []propCfg{
 		LevelNote: "Trusted: the derived dict shim (60 lines) and go build -overlay.",
 		DesignRef: "DESIGN.md section 4, C05",
 	},
+	{
+		ID: "C17", Pkg: "props/c17", Needs: []string{"fc", "tinyfo", "gocache"},
+		Tests: []testCfg{
+			{Name: "TestKnown", ShardsQ: 1, ShardsT: 1},
+			{Name: "TestTinyfo", Rapid: true, Quick: 240, Thorough: 4800, ShardsQ: 16, ShardsT: 16},
+		},
+		Rule:      "the program generator restricted to the tinyfo profile: every parameter annotated, typed probe functions (traceI/traceS/traceB), no lambdas / fun, no * and /, no interpolation or raw strings, pairs only, non-generic non-recursive records and unions, union match (all arm forms, default, any order), if/elif/else and if-only, destructuring, pipes, partial application of user, library and constructor functions, function-valued lets, recursion with a result annotation, a let's right-hand side on the let line, slice literals parenthesised when they are arguments, no empty slices, library access through an inline package_info block in tinyfo's dialect. Oracle: three-way - tinyfo's Go compiles and its stdout equals the reference evaluator's trace and equals the stdout of fc's translation of the same source. Non-trivial = the expected output contains a probe line and the program uses partial application / match / if-else / pipe / a function-valued let; distinct = hash of the source.",
+		Technique: "property-based testing (rapid) with the C01 program generator restricted to a profile; three-way differential (tinyfo, reference evaluator, fc), compile-and-run",
+		Assumptions: []string{
+			"the subset is the one tinyfo was observed to accept (DESIGN.md C17): recursion needs a result annotation, a generic library function is not stored partially applied, slice literals are not bare arguments",
+			"known finding D13 (no String() for unions) is excluded by construction: values whose type contains a union are never formatted with %v; D1 applies to tinyfo as well and is excluded as in C01",
+		},
+		LevelText: "Generated programs of the early-Folang subset, decided by compiling and running tinyfo's output against two independent references. Hundreds (quick) to thousands (thorough) of programs. Exploration.",
+		LevelNote: "Trusted: the reference evaluator, the Go toolchain; fc's translation serves as a second reference (it is itself checked by C01).",
+		DesignRef: "DESIGN.md section 4, C17",
+	},
 }
